@@ -139,6 +139,8 @@ inductive Err where
   | undefined (p : Path)     -- jinja2.UndefinedError
   | filterType (p : Path)    -- `|escape` applied to a non-string (AttributeError: no `replace`)
   | nestedNative             -- 'Cell may not contain nested "{@" templates.'
+  | noElement                -- a consumer made an `Undefined` of its own: `[]|first`, `[a][5]`, `{'k': a}[0]`
+  | badOperand               -- a consumer applied to a number (`TypeError`)
   deriving DecidableEq, Repr
 
 deriving instance DecidableEq for Except
@@ -163,6 +165,7 @@ inductive PVal where
   | val (v : Val)
   | undef (p : Path)
   | coll (k : CKind) (items : List (Str × PVal))
+  | num (n : Nat)                                    -- what `|length` returns
   deriving Repr
 
 /-- the Python type a literal builds (`dict(…)` builds a dict) -/
@@ -221,6 +224,7 @@ or prints as the word `Undefined` (`strictShallow`, `lenient`) -/
 def PVal.repr (pol : Policy) : PVal → Except Err Str
   | .val v => .ok v.repr
   | .undef p => if pol = .strict then .error (.undefined p) else .ok undefinedWord
+  | .num n => .ok (Nat.repr n).toList
   | .coll k items =>
     match reprItems pol k items with
     | .ok s => .ok (wrapRepr k items.length s)
@@ -241,6 +245,7 @@ mutual
 def PVal.reprL : PVal → Str
   | .val v => v.repr
   | .undef _ => undefinedWord
+  | .num n => (Nat.repr n).toList
   | .coll k items => wrapRepr k items.length (reprItemsL k items)
 def reprItemsL (k : CKind) : List (Str × PVal) → Str
   | [] => []
@@ -264,6 +269,7 @@ lists / tuples / dict values -/
 def PVal.findUndef : PVal → Option Path
   | .val _ => none
   | .undef p => some p
+  | .num _ => none
   | .coll _ items => findUndefItems items
 def findUndefItems : List (Str × PVal) → Option Path
   | [] => none
@@ -288,6 +294,205 @@ inductive PVal.Holds : PVal → Path → Prop where
   | undef {p} : PVal.Holds (.undef p) p
   | coll {k items kv p} : kv ∈ items → PVal.Holds kv.2 p → PVal.Holds (.coll k items) p
 
+
+/-! ### consumers: `|length`, `|first`, `|last`, `e[i]`, `|join('sep')` over container expressions
+
+What Jinja + the repo's `ReportingUndefined` do (probed on the real `CellParser`, tied on every
+generated case): evaluation makes `Undefined` OBJECTS and stores them; `|length` COUNTS them
+(`{{ [nope]|length }}` = `1`), `|first` / `|last` / `[i]` SELECT one element (selecting the
+undefined object and printing it fails — it is used; selecting a defined neighbour does not:
+`{{ [a, nope]|first }}` = `A`), `|join` calls `str()` on EVERY element (fails as soon as one
+element is or holds an undefined object); a consumer applied to the undefined object itself
+(`nope|length`) fails at once.  A dict is consumed through its KEYS (`{'k': nope}|first` = `k`).
+Only the repo's policy (`strict`) is modelled for the consumers.
+
+Outside the fragment (eager errors here, lazily made `Undefined` objects in Jinja — the driver
+reports them, the generators stay away): `first` / `last` of an empty sequence, an index out of
+range or into a dict (`noElement`); a consumer applied to a number (`badOperand`). -/
+
+inductive CExpr where
+  | ref (p : Path)
+  | dflt (x : Str) (d : Str)
+  | coll (k : CKind) (items : List (Str × CExpr))
+  | len (e : CExpr)                  -- `e|length`
+  | first (e : CExpr)                -- `e|first`
+  | last (e : CExpr)                 -- `e|last`
+  | index (e : CExpr) (i : Nat)      -- `e[i]`
+  | join (sep : Str) (e : CExpr)     -- `e|join('sep')`
+  deriving Repr
+
+mutual
+/-- the consumer-free fragment sits inside -/
+def Expr.toC : Expr → CExpr
+  | .ref p => .ref p
+  | .dflt x d => .dflt x d
+  | .coll k items => .coll k (itemsToC items)
+def itemsToC : List (Str × Expr) → List (Str × CExpr)
+  | [] => []
+  | (k, e) :: rest => (k, e.toC) :: itemsToC rest
+end
+
+def PVal.isDict : PVal → Bool
+  | .val (.record _) => true
+  | .coll .dict _ => true
+  | .coll .dictCall _ => true
+  | _ => false
+
+/-- `iter(value)`: the sequence a consumer sees -/
+def PVal.elems : PVal → Except Err (List PVal)
+  | .val (.str s) => .ok (s.map fun c => .val (.str [c]))
+  | .val (.list xs) => .ok (xs.map .val)
+  | .val (.record fs) => .ok (fs.map fun kv => .val (.str kv.1))
+  | .undef p => .error (.undefined p)
+  | .num _ => .error .badOperand
+  | .coll k items =>
+    match k with
+    | .dict | .dictCall => .ok (items.map fun kv => .val (.str kv.1))
+    | _ => .ok (items.map Prod.snd)
+
+def PVal.len (pv : PVal) : Except Err PVal :=
+  match pv.elems with
+  | .error x => .error x
+  | .ok xs => .ok (.num xs.length)
+
+def PVal.first (pv : PVal) : Except Err PVal :=
+  match pv.elems with
+  | .error x => .error x
+  | .ok xs => match xs.head? with
+    | some x => .ok x
+    | none => .error .noElement
+
+def PVal.last (pv : PVal) : Except Err PVal :=
+  match pv.elems with
+  | .error x => .error x
+  | .ok xs => match xs.getLast? with
+    | some x => .ok x
+    | none => .error .noElement
+
+def PVal.index (pv : PVal) (i : Nat) : Except Err PVal :=
+  match pv.elems with
+  | .error x => .error x
+  | .ok xs => if pv.isDict then .error .noElement else
+    match xs[i]? with
+    | some x => .ok x
+    | none => .error .noElement
+
+/-- `sep.join(str(x) for x in xs)`, stopping at the first `str()` that fails -/
+def joinStrs (sep : Str) : List PVal → Except Err Str
+  | [] => .ok []
+  | x :: rest =>
+    match x.str .strict with
+    | .error e => .error e
+    | .ok s =>
+      match joinStrs sep rest with
+      | .error e => .error e
+      | .ok r => .ok (s ++ (if rest.isEmpty then [] else sep ++ r))
+
+def PVal.join (sep : Str) (pv : PVal) : Except Err PVal :=
+  match pv.elems with
+  | .error x => .error x
+  | .ok xs => match joinStrs sep xs with
+    | .error x => .error x
+    | .ok s => .ok (.val (.str s))
+
+mutual
+def evalC (ctx : Ctx) : CExpr → Except Err PVal
+  | .ref p =>
+    match resolve ctx p with
+    | .val v => .ok (.val v)
+    | .undef => .ok (.undef p)
+    | .broken => .error (.undefined p)
+  | .dflt x d =>
+    match ctx.lookup x with
+    | some v => .ok (.val v)
+    | none => .ok (.val (.str d))
+  | .coll k items =>
+    match evalCItems ctx items with
+    | .ok pvs => .ok (.coll k.norm pvs)
+    | .error x => .error x
+  | .len e => match evalC ctx e with
+    | .error x => .error x
+    | .ok pv => pv.len
+  | .first e => match evalC ctx e with
+    | .error x => .error x
+    | .ok pv => pv.first
+  | .last e => match evalC ctx e with
+    | .error x => .error x
+    | .ok pv => pv.last
+  | .index e i => match evalC ctx e with
+    | .error x => .error x
+    | .ok pv => pv.index i
+  | .join sep e => match evalC ctx e with
+    | .error x => .error x
+    | .ok pv => pv.join sep
+def evalCItems (ctx : Ctx) : List (Str × CExpr) → Except Err (List (Str × PVal))
+  | [] => .ok []
+  | (k, e) :: rest =>
+    match evalC ctx e with
+    | .error x => .error x
+    | .ok pv =>
+      match evalCItems ctx rest with
+      | .error x => .error x
+      | .ok pvs => .ok ((k, pv) :: pvs)
+end
+
+/-- `{{ e }}` / `{{ e ~ f }}` over consumer expressions: both operands are evaluated, then
+`str()` of each, left to right -/
+def renderC (pol : Policy) (ctx : Ctx) (e : CExpr) : Option CExpr → Except Err Str
+  | none =>
+    match evalC ctx e with
+    | .error x => .error x
+    | .ok pv => pv.str pol
+  | some f =>
+    match evalC ctx e with
+    | .error x => .error x
+    | .ok a =>
+      match evalC ctx f with
+      | .error x => .error x
+      | .ok b =>
+        match a.str pol with
+        | .error x => .error x
+        | .ok x =>
+          match b.str pol with
+          | .error y => .error y
+          | .ok y => .ok (x ++ y)
+
+mutual
+/-- references written bare (not under `|default`) -/
+def CExpr.bareRefs : CExpr → List Path
+  | .ref p => [p]
+  | .dflt _ _ => []
+  | .coll _ items => bareRefsItems items
+  | .len e => e.bareRefs
+  | .first e => e.bareRefs
+  | .last e => e.bareRefs
+  | .index e _ => e.bareRefs
+  | .join _ e => e.bareRefs
+def bareRefsItems : List (Str × CExpr) → List Path
+  | [] => []
+  | (_, e) :: rest => e.bareRefs ++ bareRefsItems rest
+end
+
+/-- the expression NAMES an undefined reference -/
+def NamesUndef (ctx : Ctx) (e : CExpr) : Bool := e.bareRefs.any fun p => !definedB ctx p
+
+/-- **`UsedUndef ctx e`**: an undefined reference of `e` is USED — a consumer (or a further
+step) is applied to the undefined object itself, `|join` prints it, or the value that `e` hands
+to the printer / the caller still holds it.  `NamesUndef ctx e ∧ ¬ UsedUndef ctx e` is the
+trigger of F-C16-d: every undefined object was counted, dropped or selected away. -/
+def UsedUndef (ctx : Ctx) (e : CExpr) : Bool :=
+  match evalC ctx e with
+  | .error (.undefined _) => true
+  | .error _ => false
+  | .ok pv => pv.findUndef.isSome
+
+/-- a consumer left the fragment (`noElement` / `badOperand`) -/
+def OffFragment (ctx : Ctx) (e : CExpr) : Bool :=
+  match evalC ctx e with
+  | .error (.undefined _) => false
+  | .error _ => true
+  | .ok _ => false
+
 /-! ### templates -/
 
 /-- text templates (`Environment`, delimiters `{{ }}` / `{% %}`) -/
@@ -307,6 +512,8 @@ inductive Src where
   | nat (padL : Str) (p : Path) (padR : Str)     -- `{@ p @}`: returns the VALUE
   | nat2 (p q : Path)                            -- `{@p@}{@q@}`: rejected by the wrapper
   | natE (padL : Str) (e : Expr) (padR : Str)    -- `{@ e @}`: returns the Python value
+  | textC (e : CExpr) (cat : Option CExpr)       -- `{{ e }}` / `{{ e ~ f }}` with consumers
+  | natC (padL : Str) (e : CExpr) (padR : Str)   -- `{@ e @}` with consumers
   deriving Repr
 
 /-- what the caller gets: text, a native Python value, or — silently — an `Undefined` object -/
@@ -432,6 +639,17 @@ def renderSrc (cf : Conf) (ctx : Ctx) : Src → Except Err Out
         -- `str(undefined)`: raises unless the environment is lenient
         if cf.natPol = .lenient then .ok pv.out else .error (.undefined p)
       | none => .ok pv.out
+  | .textC e cat =>
+    match renderC cf.textPol ctx e cat with
+    | .ok s => .ok (.text s)
+    | .error e => .error e
+  | .natC _ e _ =>
+    match evalC ctx e with
+    | .error x => .error x
+    | .ok pv =>
+      match cf.search pv with
+      | some p => if cf.natPol = .lenient then .ok pv.out else .error (.undefined p)
+      | none => .ok pv.out
 
 /-! ### references -/
 
@@ -461,6 +679,9 @@ def Src.refs : Src → List Path
   | .nat _ p _ => [p]
   | .nat2 p q => [p, q]
   | .natE _ e _ => e.refs
+  | .textC e none => e.bareRefs
+  | .textC e (some f) => e.bareRefs ++ f.bareRefs
+  | .natC _ e _ => e.bareRefs
 
 /-- how a reference is used -/
 inductive Use where
@@ -560,6 +781,41 @@ def itemsShow (k : CKind) : List (Str × Expr) → Str
       | _ => e.show) ++ (if rest.isEmpty then [] else sepStr ++ itemsShow k rest)
 end
 
+def lengthFilter : Str := "length".toList
+def firstFilter : Str := "first".toList
+def lastFilter : Str := "last".toList
+def joinFilter : Str := "join".toList
+
+/-- a filter application must be parenthesised before `[i]` -/
+def CExpr.isFiltered : CExpr → Bool
+  | .dflt _ _ | .len _ | .first _ | .last _ | .join _ _ => true
+  | _ => false
+
+mutual
+def CExpr.show : CExpr → Str
+  | .ref p => p.show
+  | .dflt x d => x ++ '|' :: defaultFilter ++ "('".toList ++ d ++ "')".toList
+  | .coll .list items => '[' :: citemsShow .list items ++ [']']
+  | .coll .tuple items =>
+    if items.length = 1 then '(' :: citemsShow .tuple items ++ ",)".toList
+    else '(' :: citemsShow .tuple items ++ [')']
+  | .coll .dict items => '{' :: citemsShow .dict items ++ ['}']
+  | .coll .dictCall items => "dict(".toList ++ citemsShow .dictCall items ++ [')']
+  | .len e => e.show ++ '|' :: lengthFilter
+  | .first e => e.show ++ '|' :: firstFilter
+  | .last e => e.show ++ '|' :: lastFilter
+  | .index e i =>
+    (if e.isFiltered then '(' :: e.show ++ [')'] else e.show) ++ '[' :: (Nat.repr i).toList ++ [']']
+  | .join sep e => e.show ++ '|' :: joinFilter ++ "('".toList ++ sep ++ "')".toList
+def citemsShow (k : CKind) : List (Str × CExpr) → Str
+  | [] => []
+  | (key, e) :: rest =>
+    (match k with
+      | .dict => '\'' :: key ++ "': ".toList ++ e.show
+      | .dictCall => key ++ '=' :: e.show
+      | _ => e.show) ++ (if rest.isEmpty then [] else sepStr ++ citemsShow k rest)
+end
+
 def Tmpl.show : Tmpl → Str
   | .lit s => s
   | .var p => varStart ++ p.show ++ varEnd
@@ -579,6 +835,9 @@ def Src.show : Src → Str
   | .nat l p r => natStart ++ l ++ p.show ++ r ++ natEnd
   | .nat2 p q => natStart ++ p.show ++ natEnd ++ natStart ++ q.show ++ natEnd
   | .natE l e r => natStart ++ l ++ e.show ++ r ++ natEnd
+  | .textC e none => varStart ++ ' ' :: e.show ++ ' ' :: varEnd
+  | .textC e (some f) => varStart ++ ' ' :: e.show ++ " ~ ".toList ++ f.show ++ ' ' :: varEnd
+  | .natC l e r => natStart ++ l ++ e.show ++ r ++ natEnd
 
 /-! ### the wrapper: `parse_as_string` and `parse` -/
 
